@@ -136,7 +136,7 @@ def run_restrat(c):
     t3 = Tape(list(window))
     ref = Experiment(group=list(g1), response=resp, covariate=[[v, 7] for v in c["s2"]], randomizer=Experiment.Randomizer(randomize=NPC.randomize_in_strata, seed=t3))
     r3 = guarded(lambda: ref.randomize(in_place=True))
-    return {"r": [list(r1)[:2], list(r2)[:2], list(r3)[:2]], "g1": g1, "g2": g2, "ref": [int(v) for v in ref.group], "left": len(t3.answers)}
+    return {"r": [list(r1)[:2], list(r2)[:2], list(r3)[:2]], "g1": g1, "g2": g2, "ref": [int(v) for v in ref.group], "left": len(t3.answers), "window": window}
 
 
 def run(c):
@@ -460,6 +460,14 @@ def to_coq(c, o):
         fn = f"({'MeanDiffF' if c['fn'] == 'mean_diff' else 'AnovaF'} {cnat(c['idx'])})"
         impl = cres(("ok", Fraction(r[1])) if r[0] == "ok" and math.isfinite(r[1]) else (r if r[0] == "exc" else ("exc", "Other")), cq)
         return f"TestFnCase {fn} {clist(c['g'])} {clist(c['resp'], lambda r: qlist([Fraction(v) for v in r]))} {impl}"
+    if f == "restrat":
+        # the model's step from the state reached after the change of strata: assignment g1, the NEW strata, the answers consumed
+        if any(r[0] != "ok" for r in o["r"][:2]):
+            return None
+        n = len(c["g"])
+        e = (f"{{| group := {clist(o['g1'])}; response := {clist([[Fraction(i)] for i in range(n)], lambda r: qlist(r))}; strata := Some {clist(c['s2'])}; "
+             f"kind := Strat; gen := {clist(o['window'], cnat)} |}}")
+        return f"History {e} [(Randomize true None [])] [(Step {clist(o['g2'])} (OGroup {clist(o['g2'])}))]"
     if f != "history":
         return None
     ops, exps = [], []
